@@ -122,7 +122,7 @@ package mta
 //@   ensures [C12.equation-5] (result && X == nil) ==> (powmod(val(h1), val(pf.ProofBob.S1), val(NTilde)) * powmod(val(h2), val(pf.ProofBob.S2), val(NTilde))) % val(NTilde) == (powmod(val(pf.ProofBob.Z), chalBob(Session, ec, val(pk.N), val(c1), val(c2), val(pf.ProofBob.Z), val(pf.ProofBob.ZPrm), val(pf.ProofBob.T), val(pf.ProofBob.V), val(pf.ProofBob.W)), val(NTilde)) * val(pf.ProofBob.ZPrm)) % val(NTilde)
 //@   ensures [C12.equation-7] (result && X == nil) ==> (((powmod(val(c1), val(pf.ProofBob.S1), nsq(pk)) * powmod(val(pf.ProofBob.S), val(pk.N), nsq(pk))) % nsq(pk)) * powmod(val(pk.N) + 1, val(pf.ProofBob.T1), nsq(pk))) % nsq(pk) == (powmod(val(c2), chalBob(Session, ec, val(pk.N), val(c1), val(c2), val(pf.ProofBob.Z), val(pf.ProofBob.ZPrm), val(pf.ProofBob.T), val(pf.ProofBob.V), val(pf.ProofBob.W)), nsq(pk)) * val(pf.ProofBob.V)) % nsq(pk)
 //@   ensures [C12.equation-5-with-check] (result && X != nil) ==> (powmod(val(h1), val(pf.ProofBob.S1), val(NTilde)) * powmod(val(h2), val(pf.ProofBob.S2), val(NTilde))) % val(NTilde) == (powmod(val(pf.ProofBob.Z), chalBobWC(Session, ec, val(pk.N), px(X), py(X), val(c1), val(c2), px(pf.U), py(pf.U), val(pf.ProofBob.Z), val(pf.ProofBob.ZPrm), val(pf.ProofBob.T), val(pf.ProofBob.V), val(pf.ProofBob.W)), val(NTilde)) * val(pf.ProofBob.ZPrm)) % val(NTilde)
-//@   thorough ensures [C11.public-point-consistent] (result && X != nil) ==> (ecbasex(ec, val(pf.ProofBob.S1) % curveN(ec)) == ecaddx(X.curve, ecmulx(X.curve, px(X), py(X), chalBobWC(Session, ec, val(pk.N), px(X), py(X), val(c1), val(c2), px(pf.U), py(pf.U), val(pf.ProofBob.Z), val(pf.ProofBob.ZPrm), val(pf.ProofBob.T), val(pf.ProofBob.V), val(pf.ProofBob.W))), ecmuly(X.curve, px(X), py(X), chalBobWC(Session, ec, val(pk.N), px(X), py(X), val(c1), val(c2), px(pf.U), py(pf.U), val(pf.ProofBob.Z), val(pf.ProofBob.ZPrm), val(pf.ProofBob.T), val(pf.ProofBob.V), val(pf.ProofBob.W))), px(pf.U), py(pf.U)))
+//@   ensures [C11.public-point-consistent] (result && X != nil) ==> (ecbasex(ec, val(pf.ProofBob.S1) % curveN(ec)) == ecaddx(X.curve, ecmulx(X.curve, px(X), py(X), chalBobWC(Session, ec, val(pk.N), px(X), py(X), val(c1), val(c2), px(pf.U), py(pf.U), val(pf.ProofBob.Z), val(pf.ProofBob.ZPrm), val(pf.ProofBob.T), val(pf.ProofBob.V), val(pf.ProofBob.W))), ecmuly(X.curve, px(X), py(X), chalBobWC(Session, ec, val(pk.N), px(X), py(X), val(c1), val(c2), px(pf.U), py(pf.U), val(pf.ProofBob.Z), val(pf.ProofBob.ZPrm), val(pf.ProofBob.T), val(pf.ProofBob.V), val(pf.ProofBob.W))), px(pf.U), py(pf.U)))
 
 //@ define okBobParams(pk, NTilde, x, y) = (pk != nil ==> (pk.N != nil && val(pk.N) > 0 && bitlen(val(pk.N)) <= 4096)) && (NTilde != nil ==> (val(NTilde) > 0 && bitlen(val(NTilde)) <= 3000)) && (x != nil ==> val(x) >= 0) && (y != nil ==> val(y) >= 0)
 
